@@ -236,6 +236,45 @@ def _has_phi(t):
     return contains(t, lambda x: x[0] == 'phi')
 
 
+def len_value(T, env):
+    """Length of collection term T under a valuation that fixes ('len', base) for some base collection:
+    the base itself, or a tail base[k..] of it."""
+    T = strip_sites(detry(T))
+    if ('len', T) in env:
+        return env[('len', T)]
+    ix = m_index(T)
+    if ix is not None and isinstance(ix[1], tuple) and ix[1] and ix[1][0] == 'agg' and ix[1][1].endswith('RangeFrom') and const_int(ix[1][3][0]) is not None:
+        n = len_value(ix[0], env)
+        if n is not None:
+            return max(n - const_int(ix[1][3][0]), 0)
+    return None
+
+
+def _len_algebra(t, env):
+    """Values that follow from a length valuation: len / is_empty / presence of first, last, split_first, get(k)."""
+    if not any(isinstance(k, tuple) and k and k[0] == 'len' for k in env):
+        return None
+    k = t[0]
+    if k == 'len':
+        return len_value(t[1], env)
+    if k == 'call' and len(t[2]) == 1 and call_name(t) in ('len', 'is_empty'):
+        n = len_value(t[2][0], env)
+        if n is not None:
+            return n if call_name(t) == 'len' else (n == 0)
+    if k == 'discr' and isinstance(t[1], tuple) and t[1] and t[1][0] == 'call':
+        nm = call_name(t[1])
+        a = t[1][2]
+        if nm in ('first', 'last', 'split_first', 'split_last') and len(a) == 1:
+            n = len_value(a[0], env)
+            if n is not None:
+                return 1 if n >= 1 else 0
+        if nm == 'get' and len(a) == 2 and const_int(a[1]) is not None:
+            n = len_value(a[0], env)
+            if n is not None:
+                return 1 if n > const_int(a[1]) else 0
+    return None
+
+
 def eval_bool(t, env):
     """Evaluate a boolean/int term under env: dict mapping stripped sub-terms -> python value. Returns value or None."""
     st = strip_sites(t)
@@ -244,6 +283,10 @@ def eval_bool(t, env):
     for k in env:
         if isinstance(k, tuple) and _has_phi(k) and subsumes(k, st):
             return env[k]
+    if isinstance(st, tuple) and st:
+        v = _len_algebra(st, env)
+        if v is not None:
+            return v
     if not isinstance(t, tuple) or not t:
         return None
     k = t[0]
